@@ -383,14 +383,14 @@ func icmpEcho(id, seq uint16, payload []byte) []byte {
 
 // decodedTCP is what the independent decoder makes of an emitted frame.
 type decodedTCP struct {
-	DstMAC, SrcMAC   net.HardwareAddr
-	SrcIP, DstIP     net.IP
-	SPort, DPort     uint16
-	Seq, Ack         uint32
-	Flags            byte
-	Payload          []byte
+	DstMAC, SrcMAC      net.HardwareAddr
+	SrcIP, DstIP        net.IP
+	SPort, DPort        uint16
+	Seq, Ack            uint32
+	Flags               byte
+	Payload             []byte
 	IPCsumOK, TCPCsumOK bool
-	Err              string
+	Err                 string
 }
 
 func decodeTCPFrame(f []byte) decodedTCP {
